@@ -307,6 +307,7 @@ func z9Push(sc z9Scenario, w *z9World, reg *Registry, c *blob.DiskCache) {
 		Size      int    `json:"size"`
 	}
 	var m struct {
+		Config *layer  `json:"config,omitempty"`
 		Layers []layer `json:"layers"`
 	}
 	var digests []string
@@ -322,6 +323,17 @@ func z9Push(sc z9Scenario, w *z9World, reg *Registry, c *blob.DiskCache) {
 		if i < sc.Present {
 			srv.AddBlob(data)
 		}
+	}
+	if sc.Config > 0 {
+		// the manifest also names a config blob, as every model made by create does
+		data := z9Data(sc.Config, 29)
+		d := blob.DigestFromBytes(data)
+		if err := blob.PutBytes(c, d, data); err != nil {
+			mcrt.Fail("C09: setup: %v", err)
+			return
+		}
+		m.Config = &layer{d.String(), "application/vnd.docker.container.image.v1+json", sc.Config}
+		digests = append(digests, d.String())
 	}
 	mb, _ := json.Marshal(m)
 	md := blob.DigestFromBytes(mb)
@@ -389,6 +401,7 @@ func z9Scenarios(thorough bool) []z9Scenario {
 		{Name: "handler-chunked", Op: "pull", Layers: []int{12}, MaxStreams: 2, Handler: true, Faults: []string{"500", "neterr", "truncate", "flip"}, Faulty: 1},
 		{Name: "handler-two-layers", Op: "pull", Layers: []int{3, 12}, Config: 2, MaxStreams: 1, Handler: true, Faults: []string{"500", "neterr"}, Faulty: 1},
 		{Name: "push", Op: "push", Layers: []int{3, 12}, MaxStreams: 2, Faults: []string{"500", "neterr", "307"}},
+		{Name: "push-config", Op: "push", Layers: []int{3}, Config: 2, MaxStreams: 1},
 		{Name: "push-cancel", Op: "push", Layers: []int{3, 12}, MaxStreams: 1, Cancel: true},
 		{Name: "push-cancel-late", Op: "push", Layers: []int{3, 12}, MaxStreams: 1, CancelLate: true, Faults: []string{"500"}},
 		{Name: "chunked-cancel-late", Op: "pull", Layers: []int{12, 3}, MaxStreams: 2, CancelLate: true, Faults: []string{"500", "flip"}, Faulty: 1},
